@@ -26,6 +26,7 @@ import (
 
 	"github.com/pkg/errors"
 
+	"github.com/oxia-db/oxia/common/compare"
 	"github.com/oxia-db/oxia/common/concurrent"
 	"github.com/oxia-db/oxia/common/constant"
 	time2 "github.com/oxia-db/oxia/common/time"
@@ -86,6 +87,15 @@ func (n *notifications) Deleted(key string) {
 
 func (n *notifications) DeletedRange(keyStartInclusive, keyEndExclusive string) {
 	if strings.HasPrefix(keyStartInclusive, constant.InternalKeyPrefix) {
+		return
+	}
+	if compare.CompareWithSlash([]byte(keyStartInclusive), []byte(keyEndExclusive)) >= 0 {
+		// An empty range removes nothing: it must not replace the notification of the key it starts at
+		return
+	}
+	if existing, ok := n.batch.Notifications[keyStartInclusive]; ok && existing.Type == proto.NotificationType_KEY_RANGE_DELETED &&
+		existing.KeyRangeLast != nil && compare.CompareWithSlash([]byte(*existing.KeyRangeLast), []byte(keyEndExclusive)) >= 0 {
+		// The batch has one entry per key: of two ranges with the same start keep the wider one, it describes both
 		return
 	}
 	n.batch.Notifications[keyStartInclusive] = &proto.Notification{
